@@ -29,6 +29,17 @@ class Ctx:
             self._comp[key] = (p, Analyses(p))
         return self._comp[key]
 
+    def n2_ctx(self):
+        """a context over the N2 form of the same facts (None when this context already is N2)"""
+        if self.prog.level >= 2:
+            return None
+        if getattr(self, '_n2ctx', None) is None:
+            p2, a2 = self.n2()
+            c = Ctx(p2, self.tier, self.facts_dir, self.extra)
+            c.an = a2
+            self._n2ctx = c
+        return self._n2ctx
+
     def n2(self):
         """(program, analyses) in normal form N2 (combinators and iterator adaptors with closures expanded): for rules about
         closure-heavy functions, which read the same whether the code is written with adaptors or with loops"""
